@@ -594,6 +594,9 @@ func c15CLI(run *report.Run, env *Env, muts []c15mut, jobs []*genrun.Job, result
 		if results[i] == nil || results[i].Outcome == genrun.GenHang {
 			continue // the library run did not terminate (reported there); the CLI would not either
 		}
+		if results[i].Outcome == genrun.LoadRejected {
+			continue // not a document the loader accepts (it may even crash the loader): outside the property
+		}
 		n++
 		dir := filepath.Join(env.Scratch, "cli", fmt.Sprint(i))
 		os.MkdirAll(dir, 0o755)
@@ -635,6 +638,60 @@ func c15CLI(run *report.Run, env *Env, muts []c15mut, jobs []*genrun.Job, result
 				Observed: fmt.Sprintf("CLI exit status %d but library outcome %s (%s)", exit, lr.Outcome, trunc(lr.Msg, 200)), Expected: "non-zero exit iff error", Detail: map[string]any{"job": jobs[i]}})
 		}
 		os.RemoveAll(dir)
+	}
+	// -dir mode: several spec directories in one invocation; the exit status is non-zero iff any of them fails,
+	// wherever the failing one sorts
+	{
+		good, _, _ := cells.Base()
+		goodSpec := good.YAML()
+		var badIdx []int
+		for i := range results {
+			// failing documents spread over the corpus (every 97th error)
+			if results[i] != nil && results[i].Outcome == genrun.GenError && len(badIdx) < 6 && i%97 == 0 {
+				badIdx = append(badIdx, i)
+			}
+		}
+		for i := range results {
+			if len(badIdx) == 0 && results[i] != nil && results[i].Outcome == genrun.GenError {
+				badIdx = append(badIdx, i)
+			}
+		}
+		type layout struct {
+			name string
+			dirs []string // "good" | "bad"
+		}
+		layouts := []layout{{"bad-first", []string{"bad", "good"}}, {"bad-last", []string{"good", "bad"}}, {"bad-middle", []string{"good", "bad", "good"}}, {"all-good", []string{"good", "good"}}}
+		dirRuns := 0
+		for _, bi := range badIdx {
+			for _, lo := range layouts {
+				root := filepath.Join(env.Scratch, "clidir", fmt.Sprintf("%d-%s", bi, lo.name))
+				wantFail := false
+				for k, kind := range lo.dirs {
+					d := filepath.Join(root, fmt.Sprintf("%c_%s", 'a'+k, kind))
+					os.MkdirAll(d, 0o755)
+					sp := goodSpec
+					if kind == "bad" {
+						sp = jobs[bi].Spec
+						wantFail = true
+					}
+					os.WriteFile(filepath.Join(d, "openapi.yaml"), sp, 0o644)
+				}
+				ctx, cancel := context.WithTimeout(context.Background(), 10*time.Minute)
+				c := exec.CommandContext(ctx, bin, "-dir", root, "-out", "out", "-package", "gen", "-config", "none.yaml", fmt.Sprintf("-client=%v", jobs[bi].Client))
+				var stderr bytes.Buffer
+				c.Stderr, c.Stdout = &stderr, &stderr
+				err := c.Run()
+				cancel()
+				dirRuns++
+				crashed := strings.Contains(stderr.String(), "panic:") || strings.Contains(stderr.String(), "fatal error:")
+				if !crashed && (err != nil) != wantFail {
+					run.Violate(&report.Violation{Attrs: map[string]string{"class": "cli-dir-exit-status", "layout": lo.name}, State: muts[bi].doc + " :: " + muts[bi].desc,
+						Observed: fmt.Sprintf("goag -dir over %v: exit error=%v; output: %s", lo.dirs, err != nil, trunc(stderr.String(), 300)), Expected: "non-zero exit iff one of the directories fails", Detail: map[string]any{"job": jobs[bi]}})
+				}
+				os.RemoveAll(root)
+			}
+		}
+		run.Cov["cli_dir_runs"] = dirRuns
 	}
 	run.Cov["cli_runs"] = n
 }
